@@ -34,6 +34,7 @@ type File struct {
 	chunks []int
 	ci     int
 	rpos   int
+	fpos   *int // named pipe: delivery position shared by every open in this process
 	// sink
 	sink  []byte
 	limit int
@@ -114,6 +115,9 @@ func (f *File) Read(p []byte) (int, error) {
 			w.logOp("read", f.name, int64(f.rpos), 0, "0")
 			return 0, nil
 		}
+		if f.fpos != nil && *f.fpos > f.rpos {
+			f.rpos = *f.fpos // another descriptor on the same pipe has taken these bytes
+		}
 		if f.rpos >= len(f.pdata) {
 			w.logOp("read", f.name, int64(f.rpos), len(p), "EOF")
 			return 0, io.EOF
@@ -132,6 +136,9 @@ func (f *File) Read(p []byte) (int, error) {
 		n = copy(p[:n], f.pdata[f.rpos:])
 		w.logOp("read", f.name, int64(f.rpos), len(p), fmt.Sprint(n))
 		f.rpos += n
+		if f.fpos != nil {
+			*f.fpos = f.rpos
+		}
 		return n, nil
 	case kTty:
 		// Nobody types: end of input.
